@@ -1,3 +1,7 @@
+// instantiation driver (no logic): every vector kind with the operations of property C04.
+// Whole-class explicit instantiation is used for the leaf containers and the meta vectors; member
+// templates (copy<>, size<pod>, convert) are instantiated through the never-called functions below.
+// VERIF_THOROUGH adds float / 32-bit indices / further block sizes.
 #include <kernel/lafem/dense_vector.hpp>
 #include <kernel/lafem/dense_vector_blocked.hpp>
 #include <kernel/lafem/sparse_vector.hpp>
@@ -6,8 +10,10 @@
 #include <kernel/lafem/power_vector.hpp>
 using namespace FEAT;
 using namespace FEAT::LAFEM;
+
 template class FEAT::LAFEM::DenseVector<double, Index>;
 template class FEAT::LAFEM::DenseVectorBlocked<double, Index, 3>;
+template class FEAT::LAFEM::DenseVectorBlocked<double, Index, 2>;
 template class FEAT::LAFEM::SparseVector<double, Index>;
 template class FEAT::LAFEM::SparseVectorBlocked<double, Index, 2>;
 typedef DenseVector<double, Index> DV;
@@ -15,8 +21,43 @@ typedef DenseVectorBlocked<double, Index, 3> DVB;
 template class FEAT::LAFEM::TupleVector<DV, DVB, DV>;
 template class FEAT::LAFEM::TupleVector<DVB, DV>;
 template class FEAT::LAFEM::TupleVector<DV>;
+template class FEAT::LAFEM::TupleVector<DVB>;
 template class FEAT::LAFEM::PowerVector<DV, 3>;
 template class FEAT::LAFEM::PowerVector<DV, 2>;
 template class FEAT::LAFEM::PowerVector<DV, 1>;
 template class FEAT::LAFEM::PowerVector<DVB, 2>;
 template class FEAT::LAFEM::PowerVector<DVB, 1>;
+
+template<typename V_> void c04_meta_members(V_& a, const V_& b)
+{
+  a.copy(b);
+  a.copy(b, true);
+  (void)a.template size<Perspective::pod>();
+  (void)a.template size<Perspective::native>();
+}
+void c04_inst_meta(TupleVector<DV, DVB, DV>& t3, TupleVector<DVB, DV>& t2, TupleVector<DV>& t1, TupleVector<DVB>& t1b,
+  PowerVector<DV, 3>& p3, PowerVector<DV, 2>& p2, PowerVector<DV, 1>& p1, PowerVector<DVB, 2>& q2, PowerVector<DVB, 1>& q1)
+{
+  c04_meta_members(t3, t3); c04_meta_members(t2, t2); c04_meta_members(t1, t1); c04_meta_members(t1b, t1b);
+  c04_meta_members(p3, p3); c04_meta_members(p2, p2); c04_meta_members(p1, p1);
+  c04_meta_members(q2, q2); c04_meta_members(q1, q1);
+}
+
+#ifdef VERIF_THOROUGH
+template class FEAT::LAFEM::DenseVector<float, std::uint32_t>;
+template class FEAT::LAFEM::DenseVector<double, std::uint32_t>;
+template class FEAT::LAFEM::DenseVectorBlocked<float, std::uint32_t, 4>;
+template class FEAT::LAFEM::DenseVectorBlocked<float, Index, 1>;
+template class FEAT::LAFEM::SparseVector<float, std::uint32_t>;
+template class FEAT::LAFEM::SparseVectorBlocked<float, std::uint32_t, 3>;
+typedef DenseVector<float, std::uint32_t> DVf;
+typedef DenseVectorBlocked<float, std::uint32_t, 4> DVBf;
+template class FEAT::LAFEM::TupleVector<DVBf, DVf, DVBf>;
+template class FEAT::LAFEM::PowerVector<DVBf, 3>;
+template class FEAT::LAFEM::PowerVector<TupleVector<DVf, DVBf>, 2>;
+template class FEAT::LAFEM::TupleVector<PowerVector<DVf, 2>, DVBf>;
+void c04_inst_meta_thorough(TupleVector<DVBf, DVf, DVBf>& t3, PowerVector<DVBf, 3>& p3, PowerVector<TupleVector<DVf, DVBf>, 2>& pt, TupleVector<PowerVector<DVf, 2>, DVBf>& tp)
+{
+  c04_meta_members(t3, t3); c04_meta_members(p3, p3); c04_meta_members(pt, pt); c04_meta_members(tp, tp);
+}
+#endif
